@@ -228,3 +228,4 @@
 (assert (forall ((s Str) (a Int) (b Int)) (! (=> (< a b) (= (nlcount s a b) (+ (nlcount s a (- b 1)) (ite (= (at s (- b 1)) 10) 1 0)))) :pattern ((nlcount s a b)))))
 ; resource assumption: no string has 2^63-2 or more bytes
 (assert (forall ((s Str)) (! (< (slen s) (- MAXINT 1)) :pattern ((slen s)))))
+(assert (forall ((s Str)) (! (= (sub s 0 (slen s)) s) :pattern ((sub s 0 (slen s))))))
